@@ -23,6 +23,10 @@ enum Case {
     MapCut { desc: Desc, elements: usize },
     /// Buffered writer under a file-size limit.
     Writer { scenario: WriterScenario, limit: u64 },
+    /// serialize_to(file) under a file-size limit.
+    SaveLimit { desc: Desc, limit: u64 },
+    /// load_from(file) of the serialization cut to `cut` bytes.
+    LoadFile { desc: Desc, cut: usize },
 }
 
 #[derive(Serialize, Deserialize, Clone, Debug, Hash)]
@@ -226,6 +230,39 @@ fn check_writer(ctx: &mut Ctx, s: &WriterScenario, limit: u64) {
     ctx.require(|| format!("{}[file-size limit]", name), ok, case, || json!({"observed": format!("writer reported '{}' but the file has {} bytes (complete file: {} bytes, identical: {})", outcome, file.len(), reference.len(), complete)}));
 }
 
+fn check_save_limit(ctx: &mut Ctx, d: &Desc, x: &dyn catalogue::Ser, bytes: &[u8], limit: u64) {
+    let case = || serde_json::to_value(Case::SaveLimit { desc: d.clone(), limit }).unwrap();
+    ctx.announce(case);
+    let kind = kind_of(d);
+    let path = ctx.scratch.join(format!("save-{}.bin", ctx.evals));
+    set_fsize_limit(Some(limit));
+    let r = guard(|| x.save_to(&path).is_ok());
+    set_fsize_limit(None);
+    let file = std::fs::read(&path).unwrap_or_default();
+    let _ = std::fs::remove_file(&path);
+    let ok = match r {
+        Ok(true) => file == bytes,
+        Ok(false) => true,
+        Err(_) => false,
+    };
+    ctx.require(|| format!("{}.serialize_to[file-size limit]", kind), ok, case, || json!({"observed": format!("serialize_to reported {:?} and left {} of {} bytes", r, file.len(), bytes.len())}));
+}
+
+fn check_load_file(ctx: &mut Ctx, d: &Desc, x: &dyn catalogue::Ser, bytes: &[u8], cut: usize) {
+    let case = || serde_json::to_value(Case::LoadFile { desc: d.clone(), cut }).unwrap();
+    ctx.announce(case);
+    let kind = kind_of(d);
+    let path = ctx.scratch.join(format!("load-{}.bin", ctx.evals));
+    std::fs::write(&path, &bytes[..cut]).expect("scratch file");
+    let got = guard(|| x.load_file(&path).map(|y| y.eq_dyn(x)).map_err(|_| ()));
+    let _ = std::fs::remove_file(&path);
+    if cut == bytes.len() {
+        ctx.expect(|| format!("{}.load_from[complete file]", kind), got, &Ok(true), case);
+    } else {
+        ctx.expect(|| format!("{}.load_from[truncated file]", kind), got.map(|r| r.is_err()), &true, case);
+    }
+}
+
 fn writer_scenarios(thorough: bool) -> Vec<WriterScenario> {
     let mut v = Vec::new();
     let widths: &[usize] = if thorough { &[1, 13, 33, 64] } else { &[13, 64] };
@@ -297,6 +334,20 @@ fn explore(ctx: &mut Ctx) {
                 check_budget(ctx, d, x.as_ref(), &bytes, budget, usize::MAX);
             }
         }
+        // Files: serialize_to under every file-size limit and load_from of every truncation (8-byte steps plus
+        // the unaligned neighbours; small values only in quick).
+        if thorough || bytes.len() <= 4096 {
+            let mut points: Vec<usize> = (0..=bytes.len()).step_by(8).collect();
+            points.extend([1usize, 7, 9, bytes.len().saturating_sub(1), bytes.len().saturating_sub(3)]);
+            points.retain(|&p| p <= bytes.len());
+            points.sort_unstable();
+            points.dedup();
+            for &p in &points {
+                check_save_limit(ctx, d, x.as_ref(), &bytes, p as u64);
+                check_load_file(ctx, d, x.as_ref(), &bytes, p);
+                ctx.count("file_fault_points", 1);
+            }
+        }
         // Mapped views of every 8-byte truncation.
         if catalogue::is_mappable(d) {
             for elements in 0..=bytes.len() / 8 {
@@ -358,6 +409,16 @@ fn replay(ctx: &mut Ctx, v: &Value) {
             check_mapcut(ctx, &desc, &b, elements);
         }
         Case::Writer { scenario, limit } => check_writer(ctx, &scenario, limit),
+        Case::SaveLimit { desc, limit } => {
+            let x = catalogue::build(&desc);
+            let b = x.bytes();
+            check_save_limit(ctx, &desc, x.as_ref(), &b, limit);
+        }
+        Case::LoadFile { desc, cut } => {
+            let x = catalogue::build(&desc);
+            let b = x.bytes();
+            check_load_file(ctx, &desc, x.as_ref(), &b, cut);
+        }
     }
 }
 
